@@ -1,4 +1,5 @@
 // C07: Pade matrix exponential accuracy over families x norms x sizes x call histories; UTransform(V, i s).
+#define VF_EARLY
 #include "bind.hpp"
 #include <SQuIDS/detail/MatrixExp.h>
 using namespace vf;
@@ -150,6 +151,7 @@ int main(int argc, char** argv) {
       }
     }
   }
+  check_early({7});
   finish();
   return 0;
 }
